@@ -375,15 +375,14 @@ def check_space(ctx, lon, lat, dist, vel, pm, time, klass):
 
 
 def check_pm_ecl(ctx, lon, lat, eps, pm, klass):
-    """p_motion_equa2eclip: the total proper motion is the same in both frames (rotation), and the components agree
-    with a finite difference of equatorial2ecliptical."""
+    """p_motion_equa2eclip: the total proper motion is the same in both frames (rotation).  The ecliptical latitude the
+    function needs is taken from the oracle (atan2-based, accurate next to the poles; the library's own asin latitude
+    is a listed C05 finding there)."""
     Angle, Epoch, C = _mods()
-    lb = conv(ctx, 'equatorial2ecliptical', lon, lat, eps)
-    if lb is None:
-        return
-    inp = {'check': 'pm_ecl', 'args': [lon, lat, eps, pm[0], pm[1]], 'polecap': min(90.0 - abs(lat), 90.0 - abs(lb[1]))}
-    out = run_impl(lambda: C.p_motion_equa2eclip(Angle(pm[0]), Angle(pm[1]), Angle(lon), Angle(lat), Angle(lb[1]), Angle(eps)))
-    tie(ctx, 'p_motion_equa2eclip', [pm[0], pm[1], lon, lat, lb[1], eps], out)
+    beta = S.lonlat(S.matvec(S.rot_x(eps), S.dirv(lon, lat)))[1]
+    inp = {'check': 'pm_ecl', 'args': [lon, lat, eps, pm[0], pm[1]], 'polecap': min(90.0 - abs(lat), 90.0 - abs(beta))}
+    out = run_impl(lambda: C.p_motion_equa2eclip(Angle(pm[0]), Angle(pm[1]), Angle(lon), Angle(lat), Angle(beta), Angle(eps)))
+    tie(ctx, 'p_motion_equa2eclip', [pm[0], pm[1], lon, lat, beta, eps], out)
     if out.startswith('E:'):
         S.predicate(ctx, PROPERTY, 'pm_ecl_runs', inp['polecap'] == 0.0, inp, out, klass)
         return
@@ -391,31 +390,13 @@ def check_pm_ecl(ctx, lon, lat, eps, pm, klass):
     ml, mb = (core.from_bits(int(t[1:])) for t in out.split())
     ma, md = math.radians(pm[0]), math.radians(pm[1])
     tot_eq = math.hypot(ma * math.cos(math.radians(lat)), md)
-    tot_ec = math.hypot(ml * math.cos(math.radians(lb[1])), mb)
+    tot_ec = math.hypot(ml * math.cos(math.radians(beta)), mb)
     rel = abs(tot_eq - tot_ec) / max(tot_eq, 1e-300)
-    ctx.deviation('p_motion_total_relative', rel if inp['polecap'] > 1e-2 else 0.0)
-    S.predicate(ctx, PROPERTY, 'total_proper_motion_invariant', rel <= 1e-9 or inp['polecap'] < 1e-2, inp,
-                  {'equatorial': tot_eq, 'ecliptical': tot_ec, 'rel': rel}, klass)
-
-
-def check_anchors(ctx):
-    """Meeus examples 21.b (theta Persei), 21.c (Venus, ecliptical), 22.a (obliquity), 24.b (orbit)."""
-    Angle, Epoch, C = _mods()
-    # Meeus example 21.b (theta Persei) and 21.c (Venus, ecliptical) as anchors
-    ctx.sample({'call': 'precession_equatorial(J2000, Epoch(2028, 11, 13.19), Angle(2,44,11.986,ra=True), Angle(49,13,42.48), 0.03425/3600*15, -0.0895/3600)',
-                'expected': '(41.5472125, 49.3484833)'})
-    v = prec(ctx, 'equatorial', J2000, Epoch(2028, 11, 13.19).jde(), (2 + 44 / 60.0 + 11.986 / 3600.0) * 15.0,
-             49 + 13 / 60.0 + 42.48 / 3600.0, (0.03425 * 15.0 / 3600.0, -0.0895 / 3600.0))
-    S.predicate(ctx, PROPERTY, 'anchor_meeus_21b', v is not None and abs(v[0] - (2 + 46 / 60.0 + 11.331 / 3600.0) * 15.0) < 1e-5
-                  and abs(v[1] - (49 + 20 / 60.0 + 54.54 / 3600.0)) < 1e-5, {'check': 'anchor'}, v)
-    o = orbit(ctx, 2358042.5305, 2433282.4235, 47.122, 151.4486, 45.7481)
-    S.predicate(ctx, PROPERTY, 'anchor_meeus_24b_orbit', o is not None and abs(o[0] - 47.138) < 6e-4 and abs(o[1] - 151.4782) < 6e-5
-                  and abs(o[2] - 48.6037) < 6e-5, {'check': 'anchor'}, o)
-    v = prec(ctx, 'ecliptical', J2000, Epoch(-214, 6, 30.0).jde(), 149.48194, 1.76549)
-    S.predicate(ctx, PROPERTY, 'anchor_meeus_21c', v is not None and abs(v[0] - 118.704) < 1e-3 and abs(v[1] - 1.615) < 1e-3,
-                  {'check': 'anchor'}, v)
-    e = obliquity(ctx, Epoch(1987, 4, 10.0).jde())
-    S.predicate(ctx, PROPERTY, 'anchor_meeus_22a_obliquity', abs(e - (23 + 26 / 60.0 + 27.407 / 3600.0)) < 1e-6, {'check': 'anchor'}, e)
+    # the function divides by cos(beta)**2: within 0.01 degree of an ecliptic pole the quotient is not expected to keep 1e-9
+    near = inp['polecap'] < 1e-2
+    ctx.deviation('p_motion_total_relative' + ('@within_0.01deg_of_a_pole' if near else ''), rel)
+    S.predicate(ctx, PROPERTY, 'total_proper_motion_invariant', rel <= 1e-9 or near, inp,
+                {'equatorial': tot_eq, 'ecliptical': tot_ec, 'rel': rel}, klass)
 
 
 # ------------------------------------------------------------------ generators
